@@ -161,6 +161,70 @@ def gen_cases(ctx):
     return cases, nex, big
 
 
+def real_on_file(op, data, args, B, pending):
+    """the same primitive on a real buffered file (open(path, "rb+")) whose last `pending` bytes were appended and are
+    still in Python's write buffer when the primitive is called (nothing flushed, nothing sought since the write)"""
+    import tempfile, os
+    from mutagen import _util
+    fd, path = tempfile.mkstemp(prefix="verif-c11-")
+    os.close(fd)
+    try:
+        with open(path, "wb") as h:
+            h.write(data[:len(data) - pending])
+        f = open(path, "rb+")
+        try:
+            f.seek(0, 2)
+            if pending:
+                f.write(data[len(data) - pending:])
+            try:
+                if op == "move":
+                    _util.move_bytes(f, args[0], args[1], args[2], B)
+                elif op == "insert":
+                    _util.insert_bytes(f, args[0], args[1], B)
+                elif op == "delete":
+                    _util.delete_bytes(f, args[0], args[1], B)
+                else:
+                    di, dd = _util.insert_bytes.__defaults__, _util.delete_bytes.__defaults__
+                    try:
+                        _util.insert_bytes.__defaults__ = (B,)
+                        _util.delete_bytes.__defaults__ = (B,)
+                        _util.resize_bytes(f, args[0], args[1], args[2])
+                    finally:
+                        _util.insert_bytes.__defaults__, _util.delete_bytes.__defaults__ = di, dd
+                st = "ok"
+            except ValueError:
+                st = "err:value"
+            except IOError:
+                st = "err:io"
+            except Exception as e:
+                st = "err:" + type(e).__name__
+        finally:
+            f.close()
+        with open(path, "rb") as h:
+            return st, h.read()
+    finally:
+        os.unlink(path)
+
+
+def run_real_files(ctx, cases):
+    """a sample of the cases on real buffered files, with and without an unflushed appended tail: same status and same
+    bytes as on the in-memory file (the primitives are documented for any file object; mutagen itself calls them right
+    after writes)"""
+    rng = ctx.rng
+    pick = [c for c in cases if len(c[1]) >= 2]
+    pick = rng.sample(pick, min(len(pick), ctx.budget(400, 4000)))
+    for op, data, args, B in pick:
+        st0, out0, _log = real(op, data, args, B)
+        for pending in sorted({0, 1, len(data) // 2, len(data)}):
+            st, out = real_on_file(op, data, args, B, pending)
+            ctx.case(key=("realfile", op, len(data), args, B, pending), nontrivial=(pending > 0), modelled=False)
+            ctx.hist["realfile:pending=%s" % ("0" if pending == 0 else "all" if pending == len(data) else "some")] += 1
+            if (st, out) != (st0, out0) and not (st.startswith("err") and st0.startswith("err") and out == out0):
+                ctx.violation("%s:real-file-differs" % op, "on a real buffered file with %d appended bytes not yet flushed: %s, %d bytes; on the "
+                              "in-memory file: %s, %d bytes" % (pending, st, len(out), st0, len(out0)),
+                              {"op": op, "data": hx(data) if len(data) < 4096 else "len=%d" % len(data), "args": list(args), "B": B, "pending": pending})
+
+
 def run(ctx, only=None):
     ctx.rule = RULE
     cases, nex, big = gen_cases(ctx)
@@ -193,6 +257,7 @@ def run(ctx, only=None):
                 # B=0 never occurs here; any difference is a broken correspondence
                 ctx.disagree("fileop", {"op": op, "data": hx(data)[:200], "args": list(args), "B": B},
                              model=model[i][:300], impl="%s data=%s log=%s" % (st, hx(out)[:200], log[:200]))
+    run_real_files(ctx, allc)
     ctx.exhaustive = False
     ctx.extra["exhaustive_part"] = "all tuples with file length <= %d, arguments in [-1, L+2], B in 1..5: %d cases" % (
         ctx.budget(5, 8), nex)
